@@ -134,6 +134,11 @@ func DecodeInt33AsInt64(r io.ByteReader) (ret int64, bytesRead uint64, err error
 		}
 	}
 
+	// the last permitted byte must not have the continuation bit set
+	if b&int33Mask != 0 {
+		return 0, 0, errOverflow33
+	}
+
 	// fixme: can be optimized
 	if shift < 33 && (b&int33Mask3) == int33Mask3 {
 		ret |= int33Mask4 << shift
